@@ -493,7 +493,8 @@ def run_native(scratch, obls, tier):
                     continue
                 xm = PROP_RE.match(x)
                 r["fails"].append({"props": xm.group(1).split("/") if xm else None, "description": x[:600], "location": {"file": o["file"]}, "category": "native"})
-            r["native"] = {"ran": True, "panics": [f["description"] for f in r["fails"]], "cmd": " ".join(cmd)}
+            r["soft_done"] = "VERIF-SOFT-DONE" in body
+            r["native"] = {"ran": True, "panics": [f["description"] for f in r["fails"]], "all_clauses_evaluated": r["soft_done"], "cmd": " ".join(cmd)}
             r["playback"] = [{"test": o["harness"], "source": "native bounded check: the failing input is printed in the panic message", "values": []}]
         else:
             if not built:
@@ -676,8 +677,9 @@ def main(argv):
                 # a clause of another property failed in a shared harness: not this property's business,
                 # but clauses placed after it in the harness were not decided
                 r["note"] = "failed clause(s) belong to other properties: %s" % sorted(set(sum([f["props"] for f in other], [])))
-                if not r.get("covers_unsatisfied") is None:
-                    pass
+                if o["engine"] == "native" and not r.get("soft_done"):
+                    # the native test stopped (hard panic) before its last clause: this property's clauses after that point are undecided
+                    inconclusive.append("%s: stopped on a clause of another property (%s) before every clause of %s was evaluated" % (o["name"], other[0]["description"][:120], prop))
             elif st == "missing":
                 pass
             else:
